@@ -75,6 +75,12 @@ def gen_tokens(rng, regime, opts=()):
         for _ in range(rng.range(1, 3)):
             t = rng.choice(RULE_TOKENS)
             out.append([t[0], t[1]])
+        if rng.chance(30):
+            # the spelling the tool itself recommends for data ("use 0x1234 to force into hexadecimal interpretation"):
+            # exec may refuse it (then nothing changes) - but if it takes it, it is a push of exactly these bytes
+            b = rng.choice([bytes([rng.range(0, 255)]), bytes([rng.range(1, 255), 0]), bytes(rng.range(1, 4)), rng.bytes(rng.range(1, 4)), rng.bytes(rng.range(5, 40)),
+                            bytes([rng.range(1, 16)]), b"\x81", b"\x80", b"\x00\x80", bytes([1, 0, 0, 0])])
+            out.insert(rng.below(len(out) + 1), ["0x" + b.hex(), S.push(b).hex(), "optional"])
         if rng.chance(50):
             out.append(["OP_SIZE", "82"])
         return out
@@ -354,7 +360,15 @@ def evaluate_splice(ctx, scn):
             elif pre_print is not None and post_print is not None and pre_print != post_print:
                 ev.add(PROP, "position-moved", "bb:listing", "`exec` changed the listing or its marker")
             if rep == "invalid":
-                ev.add(PROP, "token-rejected", "parse", "exec rejected a documented token form: %s" % c.reply[1][:80])
+                if any(len(t) > 2 and t[2] == "optional" for t in toks):
+                    # a form the tool is free to refuse: a refused exec changes nothing
+                    a, b = session.wb_state(c.pre), session.wb_state(c.post)
+                    if a is not None and b is not None and a != b:
+                        ev.add(PROP, "refused-exec-changes-state", session.wb_diff(a, b)[0].split(":")[0], "`exec %s` was refused (%s) but changed %s"
+                               % (" ".join(t[0][:20] for t in toks), c.reply[1][:60], "; ".join(session.wb_diff(a, b)[:3])))
+                    ev.counters["probe:optional_token_refused"] += 1
+                else:
+                    ev.add(PROP, "token-rejected", "parse", "exec rejected a documented token form: %s" % c.reply[1][:80])
                 tainted = True
                 continue
             if rep == "crashed":
